@@ -76,6 +76,6 @@ def mapConnStrict : Bool := true
 
 /-- rows per Leontis-Westhof class in `extended_dot_bracket`: `some k` = the first k-1 rows are filled
 greedily and the k-th takes everything left; `none` = greedy, as many rows as needed -/
-def mapExtRowLimit : Option Nat := some 2
+def mapExtRowLimit : Option Nat := none
 
 end RnaVerif.Gen
